@@ -721,7 +721,7 @@ def run(run, tier, seed, replay_case=None):
                         if f in cases[i]), "plain")
         key = (frozenset(tags[i]), i in bare, feature)
         per_tagset[key] = per_tagset.get(key, 0) + 1
-        if per_tagset[key] > 2 or len(chosen) >= budget:
+        if per_tagset[key] > (2 if not key[0] else 1) or len(chosen) >= budget:
             continue
         chosen.append(i)
     smalls = shrink_many(D, model, [(cases[i], not tags[i]) for i in chosen]) if chosen else []
